@@ -69,7 +69,7 @@ def const_str_of(f, op, depth=0):
     return None
 
 
-def str_const_cmp(t):
+def str_const_cmp(t, f=None):
     """(compared local, constant string) for `x == "k"` / `x.is_empty()` calls"""
     if t[0] != "call":
         return None
@@ -79,6 +79,8 @@ def str_const_cmp(t):
     if u.endswith("PartialEq::eq") and len(args) == 2:
         for i in (0, 1):
             k = M.const_str(args[i])
+            if k is None and f is not None:
+                k = const_str_of(f, args[i])
             o = args[1 - i]
             if k is not None and o[0] in ("c", "m"):
                 return o[1][0], k
@@ -128,6 +130,77 @@ def derives_from(f, local, srcs, depth=0, seen=None):
     return False
 
 
+def _prefix_const(g, op):
+    k = const_str_of(g, op)
+    if k is None and M.const_int(op) is not None:
+        k = chr(M.const_int(op))
+    if k is None and op[0] == "k" and isinstance(op[2], dict) and "item" in op[2]:
+        k = None
+    return k
+
+
+def explore(fx, f, atoms_true, consts_of, depth=0):
+    """Concrete interpretation of a small function over the truth of the prefix tests on its specifier: returns (blocks visited,
+    set of possible return values for bool functions).  `starts_with(x, "p")` is true iff "p" is in atoms_true; calls of local boolean
+    functions on the specifier are evaluated recursively; switches on unknown values are explored both ways."""
+    visited = set()
+    rets = set()
+    work = [(0, ())]
+    seen = set()
+    while work:
+        b, envt = work.pop()
+        if (b, envt) in seen or len(seen) > 3000:
+            continue
+        seen.add((b, envt))
+        visited.add(b)
+        e = dict(envt)
+        for st in f.blocks[b]["s"]:
+            if st[0] != "a" or st[1][1]:
+                continue
+            l = st[1][0]
+            rv = st[2]
+            if rv[0] == "use" and rv[1][0] == "k" and fx.tys(f.locals[l]) == "bool":
+                e[l] = M.const_int(rv[1])
+            elif rv[0] == "use" and rv[1][0] in ("c", "m") and not rv[1][1][1] and rv[1][1][0] in e:
+                e[l] = e[rv[1][1][0]]
+            elif rv[0] == "un" and rv[1] == "Not" and rv[2][0] in ("c", "m") and not rv[2][1][1] and rv[2][1][0] in e:
+                e[l] = 1 - e[rv[2][1][0]]
+            else:
+                e.pop(l, None)
+        t = f.blocks[b]["t"]
+        if t[0] == "call":
+            d = t[1].get("d") or ""
+            dest = t[3][0] if not t[3][1] else None
+            if dest is not None:
+                e.pop(dest, None)
+                if d.endswith("str>::starts_with") and len(t[2]) > 1:
+                    k = consts_of(f, t[2][1])
+                    if k is not None:
+                        e[dest] = 1 if k in atoms_true else 0
+                elif t[1].get("local") and d in fx.fns and fx.tys(fx.fns[d].locals[0]) == "bool" and depth < 4:
+                    _, r = explore(fx, fx.fns[d], atoms_true, consts_of, depth + 1)
+                    if len(r) == 1:
+                        e[dest] = list(r)[0]
+            if t[4] is not None and t[4] >= 0:
+                work.append((t[4], tuple(sorted(e.items()))))
+            continue
+        if t[0] == "ret":
+            if 0 in e:
+                rets.add(e[0])
+            else:
+                rets |= {0, 1}
+            continue
+        envn = tuple(sorted(e.items()))
+        if t[0] == "switch" and t[1][0] in ("c", "m") and not t[1][1][1] and t[1][1][0] in e:
+            val = str(e[t[1][1][0]])
+            tg = [tb for v_, tb in t[2] if v_ == val]
+            work.append(((tg[0] if tg else t[3]), envn))
+        else:
+            for nb in f.succ(b):
+                work.append((nb, envn))
+    return visited, rets
+
+
 def run(tier, fx=None, ck=None, control=False):
     own = ck is None
     if own:
@@ -171,15 +244,20 @@ def run(tier, fx=None, ck=None, control=False):
                         if callee in normalisers:
                             ok = True
                         else:
-                            # bare edge: dominated by the true edge of a test of is_bare(..)
+                            # bare pass-through: the site is reached only when none of the prefix tests ('/', './', '../') holds,
+                            # however the function spells that (is_bare(), !is_absolute() && !is_relative(), nested ifs)
                             if g.path not in bare_regions:
-                                reg = set()
-                                for cb, ct in g.calls():
-                                    if (ct[1].get("d") or "").endswith("::is_bare"):
-                                        te = true_edge(g, cb)
-                                        if te:
-                                            reg |= M.dominated_region(g, te[0])
-                                bare_regions[g.path] = reg
+                                import itertools
+                                atoms = ("/", "./", "../")
+                                only_bare = None
+                                for r_ in range(len(atoms) + 1):
+                                    for comb in itertools.combinations(atoms, r_):
+                                        vis, _ = explore(fx, g, frozenset(comb), _prefix_const)
+                                        if comb == ():
+                                            only_bare = set(vis) if only_bare is None else only_bare
+                                        else:
+                                            only_bare = (only_bare or set()) - vis if only_bare is not None else None
+                                bare_regions[g.path] = only_bare or set()
                             if bi in bare_regions[g.path]:
                                 ok = True
                                 origin += " (bare specifier, passed through)"
@@ -211,7 +289,7 @@ def run(tier, fx=None, ck=None, control=False):
             heads = {bi for bi, t in g.calls() if (t[1].get("u") or "").endswith("Iterator::next") and t[3][0] in segs}
             found = {}
             for bi, t in g.calls():
-                c = str_const_cmp(t)
+                c = str_const_cmp(t, g)
                 if c is None or c[1] not in ("", ".", "..") or not derives_from(g, c[0], segs):
                     continue
                 te = true_edge(g, bi)
@@ -312,7 +390,7 @@ def run(tier, fx=None, ck=None, control=False):
             res = t[3][0]
             tests = []
             for cb, ct in g.calls():
-                c = str_const_cmp(ct)
+                c = str_const_cmp(ct, g)
                 if c is not None and c[1] == k and derives_from(g, c[0], {res}) and true_edge(g, cb):
                     tests.append(ct)
             if not tests:
